@@ -221,6 +221,22 @@ CHECKS = {
         note="Trusted base: TLC + CommunityModules; the kernel's getsockopt. Releasing a held connect costs the kernel's 1 s SYN retransmission; "
              "situations that never settle are skipped and counted, never reported. One finding recorded (xcm.service accepts writes after "
              "creation)."),
+    "C18": dict(
+        text="spec/CtxCore.tla defines the credential universe (generations of the leaf under two CAs, keys, trusted-CA and CRL bundles, bad "
+             "kinds), the abstract file system (content + stamp per file, directory link, per-file links), designations (off / default / "
+             "file / value / inherited), Resolve / Inherit, Mat (the material a designation denotes) and KeyOf (the cache key of "
+             "ctx_store.c); spec/CtxStore.tla is the bounded model: Begin(connect | server | accept), Acquire, Hash1, Lookup, Load(item), "
+             "Hash2, Install, Close interleaved at every loader step with file updates (in place / rename / bad material / link flips / "
+             "setenv); TLC checks Fresh, Eproto, NoMix, Distinct, Released, Mutex and EstablishedUnaffected, and three named deviations "
+             "must break them. Every completed call of the model is emitted as a path; harness/creds_exec replays paths and seeded "
+             "random behaviours on real tls / btls / utls connections in-process (file operations with stat-verified stamps, updates placed "
+             "inside a call at the k-th credential file access through the link-time shim, network-namespace naming in a private mount "
+             "namespace) and records errno, the SSL_CTX each socket was given, SSL_CTX new / free / live counts and the subject key ids both "
+             "sides see; spec/CtxStoreTrace.tla validates every line with the same operators.",
+        ref="5/C18", tech="TLA+ model checking (TLC) + model-generated behaviours replayed on real TLS connections and validated by a trace specification",
+        note="Trusted base: TLC + CommunityModules; OpenSSL's PEM parsing and verification (token semantics of CtxCore rest on them). Real "
+             "multi-threaded execution of the cache is C15's subject (two loader threads exist in the model only). Three findings recorded "
+             "(accept_env_frozen, ctx_meta_key, aba_load). A mismatch class is reported only if re-running its smallest execution repeats it."),
 }
 
 NOT_APPLICABLE = {}
